@@ -17,6 +17,14 @@ Round 6: `contracts/c09_routing.py` -- the nested-archive rule is a suffix test 
 (a) the router functions meet the routing specification (C07's contracts, executed on the tree under check), (b) lemma over the two verified
 specifications: a selected base name is never routed to the archive reader (refuted on the unchanged tree: `.gz` / `.bz2` / `.xz` aliases and
 MIME-detected tar names -- recorded finding C09-nested-archive-aliases-are-dispatched, proposed_fixes/C09_3_nested_aliases.diff).
+
+Round 7 (deepening): VERIFIED on the real bodies instead of assumed / policy-only -- sevenzip `_mkdirs`, `SevenZipReader._extract_files_from_folder`,
+`SevenZipReader.extractall` (`writer_contracts`: every os.makedirs / open path is INSIDE the named directory for all member tables; callees through
+their verified contracts, `call-pre` obligations), archive `_is_supported_file_cached`, `_get_file_extractor_cached`, `_process_archive_entry`
+(no file-system call; the extractor is handed io.BytesIO(file_data)).  `contracts/c09_counts.py`: one-iteration step obligations on the 7z
+path-count pass and the work-list pass.  Assumed models added: os.path.dirname below the base, io.BytesIO, sum of ints, file.write; the os.makedirs
+clause is `mkdir_ok` (inside, or the parent of the private directory: nothing to create) -- TRUSTED, validated natively by `model_validation` (BOUNDED).
+Clauses over ghost lists are judged only in the callee's own verification (`ctx.at_call_site`), and a `requires` never rebinds the caller's ghost directory.
 """
 import os
 
@@ -31,6 +39,7 @@ from pyvc.verify import p_opt, p_str, p_unk
 
 ARCH = "sharepoint2text/parsing/extractors/archive_extractor.py"
 SEVEN = "sharepoint2text/parsing/extractors/util/sevenzip.py"
+ROUTER_REL = "sharepoint2text/parsing/router.py"
 S = z3.StringSort()
 ABS = z3.Function("os_path_abspath", S, S)
 JOIN = z3.Function("os_path_join", S, S, S)
@@ -125,16 +134,45 @@ def m_isabs(ex, st, args, kwargs, node):
     return [(st, VBool(ISABS(args[0].t)))]
 
 
+DIRNAME = z3.Function("os_path_dirname", S, S)
+
+
+def dirname_fact(base, p):
+    """os.path.dirname (assumed, POSIX) of a normalised absolute path p that lies strictly below abspath(base): a normalised absolute path that is
+    abspath(base) or lies below it (p = b/c1/../cn without empty components: dirname drops `/cn`).  Nothing is said about dirname(abspath(base))
+    itself -- that is the PARENT of the private directory, see `mkdir_ok`."""
+    b, d = ABS(base), DIRNAME(p)
+    return z3.And(z3.Implies(z3.And(NORM(p), z3.PrefixOf(z3.Concat(b, SEP), p)), z3.And(NORM(d), z3.Or(d == b, z3.PrefixOf(z3.Concat(b, SEP), d)))),
+                  z3.Implies(z3.And(NORM(p), z3.SuffixOf(SEP, b), z3.PrefixOf(b, p)), z3.And(NORM(d), z3.PrefixOf(b, d))))
+
+
+def m_dirname(ex, st, args, kwargs, node):
+    if len(args) != 1 or kwargs or not isinstance(args[0], VStr):
+        return ex.havoc_call(st, "os.path.dirname", args, node)
+    temp = st.ghost.get("temp_dir")
+    if temp is not None:
+        st.assume(dirname_fact(temp, args[0].t))
+    return [(st, VStr(DIRNAME(args[0].t)))]
+
+
+def mkdir_ok(temp, p):
+    """what os.makedirs(p, exist_ok=True) may be given: a path inside the private directory (every directory it creates is then inside: the
+    private directory exists), or the parent of the private directory (an ancestor of an existing directory exists: nothing is created; this
+    is what a *file* member whose name normalises to `.` makes the reader do before open() fails with IsADirectoryError)."""
+    return z3.Or(inside(temp, p), p == DIRNAME(ABS(temp)), p == DIRNAME(temp))
+
+
 def fs_call(kind):
     """A file-system effect: emits the confinement obligation on its path argument."""
     def m(ex, st, args, kwargs, node):
-        p = args[0] if args else None
+        p = args[0] if args else next((kwargs[k] for k in ("name", "path", "file", "p", "s", "filename") if k in kwargs), None)   # os.makedirs(name=...), open(file=...)
         temp = st.ghost.get("temp_dir")
         label = "every-path-argument-is-inside-the-private-temp-dir"     # one id for all sites: call ordinals / primitive names may change
+        st.ghost["fs_calls"] = st.ghost.get("fs_calls", ()) + (f"{ex.loc(node)} {kind}",)
         if temp is None or not isinstance(p, VStr):
             ex.add_vc("fs-confined", label, st.pc, z3.BoolVal(False), note=f"{ex.loc(node)} {kind}: no private temp dir in scope / path not a string", loc=ex.loc(node))
         else:
-            ex.add_vc("fs-confined", label, st.pc, inside(temp, p.t), note=f"{ex.loc(node)} {kind}", loc=ex.loc(node))
+            ex.add_vc("fs-confined", label, st.pc, mkdir_ok(temp, p.t) if kind == "os.makedirs" else inside(temp, p.t), note=f"{ex.loc(node)} {kind}", loc=ex.loc(node))
         ex.exc_any(st.fork(), f"{ex.loc(node)} {kind}")
         if kind in ("os.path.exists", "os.path.lexists", "os.path.isfile", "os.path.isdir"):
             return [(st, VBool(z3.Bool(fresh_name("exists"))))]
@@ -160,7 +198,41 @@ class FsExecutor(Executor):
     def b_open(self, st, args, kwargs, node):
         return fs_call("open")(self, st, args, kwargs, node)
 
+    def add_vc(self, kind, label, pc, goal, note="", loc=""):
+        # one `call-pre` id per callee: the ordinal of a call site changes when a harmless edit adds / merges / reorders calls
+        if kind == "call-pre" and "@" in label and label.rsplit("@", 1)[1].isdigit():
+            note, label = (note or f"{loc} call site {label}"), label.rsplit("@", 1)[0]
+        return super().add_vc(kind, label, pc, goal, note=note, loc=loc)
+
+    # `k in self._folder_to_files`, `self._folder_to_files[k]`: a dict from folder index to the list of its file indices (any dict: HASF / NIDX /
+    # FIDX are uninterpreted; a missing key raises KeyError as a dict does)
+    def contains(self, st, container, item, node):
+        from pyvc.values import VInt
+        if isinstance(container, VExt) and container.sort == "FolderMap" and isinstance(item, VInt):
+            return [(st, VBool(HASF(ops.int_term(item))))]
+        return super().contains(st, container, item, node)
+
+    def get_index(self, st, base, idx, node):
+        from pyvc.values import VInt
+        if isinstance(base, VExt) and base.sort == "FolderMap" and isinstance(idx, VInt):
+            k = ops.int_term(idx)
+            st = self.fork_raise(st, z3.Not(HASF(k)), "KeyError")
+            if st is None:
+                return []
+            st.assume(NIDX(k) >= 0)
+            return [(st, VSeq(NIDX(k), lambda j, k=k: VInt(FIDX(k, j)), "int"))]
+        return super().get_index(st, base, idx, node)
+
+    def b_sum(self, st, args, kwargs, node):
+        """sum() of a list of ints is an int and raises nothing (its value is of no interest here: positions in the in-memory archive)"""
+        from pyvc.values import VInt
+        if len(args) == 1 and not kwargs and isinstance(args[0], VSeq) and args[0].ekind == "int":
+            return [(st, VInt(z3.Int(fresh_name("sum"))))]
+        sup = getattr(super(), "b_sum", None)
+        return sup(st, args, kwargs, node) if sup is not None else self.havoc_call(st, "sum", args, node)
+
     def havoc_call(self, st, what, args, node):
+        st.ghost["opaque_calls"] = st.ghost.get("opaque_calls", ()) + ((str(what), tuple(args), self.loc(node)),)
         st.assume(OVER)          # before the fork: "may raise any Exception" is part of the over-approximation
         return super().havoc_call(st, what, args, node)
 
@@ -184,6 +256,7 @@ def install(reg):
     reg.ext_models["os.path.join"] = m_join
     reg.ext_models["os.path.splitdrive"] = m_splitdrive
     reg.ext_models["os.path.isabs"] = m_isabs
+    reg.ext_models["os.path.dirname"] = m_dirname
     reg.ext_models["os.path.commonprefix"] = m_commonprefix
     reg.ext_models["os.path.commonpath"] = m_commonpath
     reg.ext_models["os.path.relpath"] = m_relpath
@@ -195,6 +268,14 @@ def install(reg):
         if k != "open":                                   # the builtin: FsExecutor.b_open
             reg.ext_models[k] = fs_call(k)
     reg.ext_models[("with", "File")] = with_file
+
+    def m_bytesio(ex, st, args, kwargs, node):
+        """io.BytesIO(data): an in-memory stream over `data` (no file); remembered so that a contract can say WHAT an extractor is handed"""
+        ex.exc_any(st.fork(), f"{ex.loc(node)} io.BytesIO")
+        v = VExt("BytesIO")
+        st.ghost[("bytesio", v.t.get_id())] = args[0] if len(args) == 1 and not kwargs else None
+        return [(st, v)]
+    reg.ext_models["io.BytesIO"] = m_bytesio
 
 
 EXECUTOR = FsExecutor
@@ -209,9 +290,45 @@ def real_params(rel, qual, default):
         names = [a.arg for a in f.args.posonlyargs + f.args.args] if f is not None else []
         if len(names) == len(default) and not f.args.kwonlyargs and not f.args.vararg and not f.args.kwarg:
             return names
+        # parameters ADDED behind the roles, all with defaults (the unchanged call sites still work): the roles keep their positions; the added
+        # ones are bound to arbitrary values by `with_added_params`
+        if f is not None and len(names) > len(default) and not f.args.vararg and not f.args.kwarg and len(f.args.defaults) >= len(names) - len(default) \
+                and all(d is not None for d in f.args.kw_defaults):
+            return names[:len(default)]
     except Exception:  # noqa
         pass
     return list(default)
+
+
+def extra_params(rel, qual, n_roles):
+    """makers for the parameters a harmless edit ADDED behind the `n_roles` the contract speaks about (they must have defaults, else the call sites of
+    the unchanged callers would not work): a str default -> any string, anything else -> unknown"""
+    import ast
+    try:
+        f = loader.module(rel).functions.get(qual)
+        pos = f.args.posonlyargs + f.args.args
+        extra, defaults = pos[n_roles:], f.args.defaults
+        if len(pos) < n_roles or (len(pos) == n_roles and not f.args.kwonlyargs) or len(defaults) < len(extra) or f.args.vararg or f.args.kwarg:
+            return None
+        out = []
+        from pyvc.verify import Maker
+
+        def mk(d):
+            # verified for ANY value of the added parameter; a call site that omits it gets the declared default
+            if isinstance(d, ast.Constant) and isinstance(d.value, str):
+                return Maker(p_str().fn, default=lambda ex, st, v=d.value: VStr(z3.StringVal(v)), desc="str (added parameter)")
+            if isinstance(d, ast.Constant):
+                return Maker(p_unk().fn, default=lambda ex, st, v=d.value: ops.lift(v), desc="any (added parameter)")
+            return Maker(p_unk().fn, default=lambda ex, st: VUnk("default"), desc="any (added parameter)")
+        for a, d in zip(extra, defaults[len(defaults) - len(extra):]):
+            out.append((a.arg, mk(d)))
+        for a, d in zip(f.args.kwonlyargs, f.args.kw_defaults):
+            if d is None:
+                return None
+            out.append((a.arg, mk(d)))
+        return out
+    except Exception:  # noqa
+        return None
 
 
 def contracts(reg):
@@ -221,6 +338,13 @@ def contracts(reg):
     p7_files, p7_temp, p7_arch = real_params(ARCH, "_process_7z_files_sequential", ("files_to_process", "temp_dir", "archive_path"))
     sk_file, sk_base = real_params(ARCH, "_should_skip_file", ("filename", "basename"))
     (sup_name,) = real_params(ARCH, "_is_supported_file_cached", ("filename",))
+
+    def no_fs(c):
+        if getattr(c, "at_call_site", False):                  # a clause about the callee's own run: at a call site it is what the caller may rely on
+            return z3.BoolVal(True)                            # (the caller's ghost list holds the CALLER's earlier calls and must not be judged here)
+        calls = c.st.ghost.get("fs_calls", ())[len(c.entry.ghost.get("fs_calls", ())):]
+        c.note = "; ".join(calls)
+        return z3.BoolVal(not calls)
 
     def sj_raise(c):
         rel = c.args[sj_rel].t
@@ -255,10 +379,59 @@ def contracts(reg):
         requires=bind_temp, generator=True, raises=[],
         note="member names are arbitrary strings (absolute, dot-dot, names of host files)",
     ))
+    pe = real_params(ARCH, "_process_archive_entry", ("filename", "file_data", "archive_path", "basename"))
     out.append(FnContract(
-        target=f"{ARCH}::_process_archive_entry", assumed=True, generator=True,
-        params=[(n, p_unk()) for n in real_params(ARCH, "_process_archive_entry", ("filename", "file_data", "archive_path", "basename"))],
-        raises=[], note="verified by the C01 pack (raises nothing); works on in-memory bytes only"))
+        target=f"{ARCH}::_process_archive_entry", generator=True,
+        params=[(pe[0], p_str()), (pe[1], p_unk()), (pe[2], p_opt(p_str())), (pe[3], p_str())],
+        raises=[], total=True, ensures=[("no-file-system-call", lambda c: no_fs(c)), ("the-extractor-is-handed-the-member-bytes-as-an-in-memory-stream", lambda c: pe_stream(c))],
+        note="VERIFIED (round 7; was assumed from C01): touches no file (the member bytes go to the extractor in memory) and lets nothing escape; "
+             "callers see the same contract"))
+    def pe_stream(c):
+        """every call of the callable that _get_file_extractor_cached returned has ONE positional argument: io.BytesIO(<the file_data parameter>)
+        (a member name or any other string in that position would make the extractor open a host file)"""
+        if getattr(c, "at_call_site", False):
+            return z3.BoolVal(True)
+        bad = []
+        for (what, args, loc) in c.st.ghost.get("opaque_calls", ()):
+            if not what.startswith("unknown:extractor"):
+                continue
+            a = args[0] if len(args) == 1 else None
+            src = c.st.ghost.get(("bytesio", a.t.get_id())) if isinstance(a, VExt) and a.sort == "BytesIO" else None
+            if src is None or src is not c.args[pe[1]]:
+                bad.append(f"{loc}: extractor called with {list(args)!r}")
+        c.note = "; ".join(bad)
+        return z3.BoolVal(not bad)
+
+    (gx_name,) = real_params(ARCH, "_get_file_extractor_cached", ("filename",))
+    (rx_path,) = real_params(ROUTER_REL, "get_extractor", ("path",))
+
+    def rx_result(ex, st, ctx):
+        v = VUnk(fresh_name("extractor"))
+        st.ghost["router_extractor"] = st.ghost.get("router_extractor", ()) + ((ctx.args[rx_path], v),)
+        return v
+
+    out.append(FnContract(
+        target=f"{ROUTER_REL}::get_extractor", assumed=True, params=[(rx_path, p_str())], result_maker=rx_result,
+        raises=[Raises("ExtractionFileFormatNotSupportedError")],
+        note="call-site view: some callable chosen from the name, or ExtractionFileFormatNotSupportedError (no file-system access). The function itself is "
+             "VERIFIED against the routing specification (C09/router.py/conformance#names-are-routed-as-specified), which implies this view"))
+
+    def gx_same(c):
+        if getattr(c, "at_call_site", False):
+            return z3.BoolVal(True)
+        got = c.st.ghost.get("router_extractor", ())
+        ok = len(got) == 1 and got[0][1] is c.result and isinstance(got[0][0], VStr) and z3.eq(got[0][0].t, c.args[gx_name].t)
+        c.note = "" if ok else f"router.get_extractor calls on this path: {[(str(a), str(v)) for a, v in got]}, returned {c.result!r}"
+        return z3.BoolVal(ok)
+
+    if "_get_file_extractor_cached" in loader.module(ARCH).functions:
+        out.append(FnContract(
+            target=f"{ARCH}::_get_file_extractor_cached", params=[(gx_name, p_str())],
+            result_maker=lambda ex, st, ctx: VUnk(fresh_name("extractor")),
+            ensures=[("is-router-get_extractor-of-the-very-name", gx_same), ("no-file-system-call", lambda c: no_fs(c))],
+            raises=[Raises("ExtractionFileFormatNotSupportedError")],
+            note="VERIFIED (round 7; was not under a C09 contract): the member's extractor is router.get_extractor of the very name, no file is touched, "
+                 "only the router's own exception escapes; callers see: some callable or that exception"))
 
     # skip rule: _should_skip_file(filename, basename)  <=>  hidden | __MACOSX/ | unsupported | nested archive
     arch = loader.module(ARCH)
@@ -269,17 +442,176 @@ def contracts(reg):
         return VBool(z3.Or(z3.PrefixOf(z3.StringVal("."), b), z3.PrefixOf(z3.StringVal("__MACOSX/"), f),
                            z3.Not(SUP(b)), z3.Or([z3.SuffixOf(z3.StringVal(e), LOWER(b)) for e in nested])))
 
+    (r_path,) = real_params(ROUTER_REL, "is_supported_file", ("path",))
     out.append(FnContract(
-        target=f"{ARCH}::_is_supported_file_cached", assumed=True, params=[(sup_name, p_str())],
-        returns=lambda c: VBool(SUP(c.args[sup_name].t)),
-        note="lru_cache wrapper of router.is_supported_file (verified by C07); memo soundness is C15's"))
+        target=f"{ROUTER_REL}::is_supported_file", assumed=True, params=[(r_path, p_str())],
+        returns=lambda c: VBool(SUP(c.args[r_path].t)), raises=[],
+        note="call-site view: a function of the name (no file-system access). The function itself is VERIFIED against the routing specification "
+             "(contracts/c09_routing.py: C09/router.py/conformance#names-are-routed-as-specified), which implies this view"))
+    out.append(FnContract(
+        target=f"{ARCH}::_is_supported_file_cached", params=[(sup_name, p_str())],
+        returns=lambda c: VBool(SUP(c.args[sup_name].t)), raises=[], total=True,
+        ensures=[("no-file-system-call", no_fs)],
+        note="VERIFIED (round 7; was assumed): the member support check is router.is_supported_file of the very name it is given, touches no file and raises "
+             "nothing; callers see the same contract. lru_cache is transparent for a deterministic function (PY-MEMO; memo soundness is C15's)"))
     reg.ext_models["str.lower"] = lambda ex, st, args, kwargs, node: [(st, VStr(LOWER(args[0].t)))]
     out.append(FnContract(
         target=f"{ARCH}::_should_skip_file",
         params=[(sk_file, p_str()), (sk_base, p_str())],
-        returns=skip_spec,
+        returns=skip_spec, ensures=[("no-file-system-call", no_fs)],
         note="hidden members, macOS resource forks, unsupported types and nested archives are skipped",
     ))
+    out.extend(writer_contracts(reg))
+    # round-7 contracts sit on helpers a harmless edit may rename, merge or inline: a helper that no longer exists has nothing to prove (its callers
+    # are then verified with the body of whatever they call instead); the vacuity guard tolerates the missing ids only when the file changed
+    R7 = {f"{ARCH}::_is_supported_file_cached", f"{ARCH}::_get_file_extractor_cached", f"{ARCH}::_process_archive_entry", f"{SEVEN}::_mkdirs",
+          f"{SEVEN}::SevenZipReader._extract_files_from_folder", f"{SEVEN}::SevenZipReader.extractall", f"{SEVEN}::SevenZipReader._decompress_folder"}
+
+    def exists(t):
+        try:
+            rel, q = t.split("::")
+            return q in loader.module(rel).functions
+        except Exception:  # noqa
+            return True
+    return [with_added_params(c) for c in out if c.target not in R7 or exists(c.target)]
+
+
+def with_added_params(c):
+    try:
+        if "::" not in c.target or (c.params and c.params[0][0] == "self" and False):
+            return c
+        rel, q = c.target.split("::")
+        f = loader.module(rel).functions.get(q)
+        if f is None:
+            return c
+        n_real = len(f.args.posonlyargs + f.args.args) + len(f.args.kwonlyargs)
+        if n_real > len(c.params):
+            extra = extra_params(rel, q, len(c.params))
+            if extra and len(extra) == n_real - len(c.params) and not ({n for n, _ in extra} & {n for n, _ in c.params}):
+                c.params = list(c.params) + extra
+    except Exception:  # noqa
+        pass
+    return c
+
+
+# ------------------------------------------------------------------- round 7: the 7z reader's writing side under deductive contracts --
+I_ = z3.IntSort()
+FileInfoS = ext_sort("FileInfo")
+NFILES = z3.Int("c09_n_files")
+FINFO = z3.Function("c09_file_info", I_, FileInfoS)
+FNAME = z3.Function("c09_file_name", FileInfoS, S)                # arbitrary strings: absolute, dot-dot, drive, empty, names of host files
+ISDIR = z3.Function("c09_file_is_directory", FileInfoS, z3.BoolSort())
+USIZE = z3.Function("c09_file_uncompressed", FileInfoS, I_)
+HASF = z3.Function("c09_folder_has_files", I_, z3.BoolSort())
+NIDX = z3.Function("c09_folder_file_count", I_, I_)
+FIDX = z3.Function("c09_folder_file_index", I_, I_, I_)
+FS_SITES = SYMBOLIC_FS + ("file.write",)
+
+
+def _fs_site(c):
+    """the escaping exception was raised by a file-system primitive (EXC-ANY at that call: e.g. ValueError for a NUL in a member name)"""
+    site = str(getattr(c.exc, "attrs", {}).get("site", "")) if c.exc is not None else ""
+    return z3.BoolVal(any(site.endswith(" " + k) for k in FS_SITES))
+
+
+def writer_contracts(reg):
+    """_mkdirs / SevenZipReader._extract_files_from_folder / SevenZipReader.extractall (zero-length loop and directory creation): every path
+    that reaches os.makedirs / open is INSIDE the directory the caller named, for ALL member tables (names, kinds and sizes are uninterpreted),
+    any number of members, any folder output.  Rounds 3-6 had these three functions under the data-flow policy P6 only."""
+    from pyvc.verify import Maker, p_int, p_obj
+    out = []
+    try:
+        reg.attr_models[("FileInfo", "is_directory")] = lambda ex, st, o: VBool(ISDIR(o.t))
+        reg.attr_models[("FileInfo", "uncompressed")] = lambda ex, st, o: __import__("pyvc.values", fromlist=["VInt"]).VInt(USIZE(o.t))
+        reg.attr_models[("FileInfo", "filename")] = lambda ex, st, o: VStr(FNAME(o.t))
+
+        def m_write(ex, st, obj, args, kwargs, node):
+            from pyvc.values import VInt
+            ex.exc_any(st.fork(), f"{ex.loc(node)} file.write")
+            return [(st, VInt(z3.Int(fresh_name("written"))))]
+        reg.method_models[("File", "write")] = m_write
+        from pyvc.values import VInt
+        p_files = Maker(lambda ex, st, name: [(NFILES >= 0, VSeq(NFILES, lambda i: VExt("FileInfo", FINFO(i)), "FileInfo"))], desc="list[FileInfo], any length, uninterpreted names / kinds / sizes")
+        from pyvc.verify import p_ext
+        p_fmap = p_ext("FolderMap")        # dict: folder index -> list of file indices (membership / lookup: FsExecutor.contains / get_index)
+        p_blob = Maker(lambda ex, st, name: [(z3.Int(f"{name}_len") >= 0, VSeq(z3.Int(f"{name}_len"), lambda i: VInt(z3.Function(f"{name}_byte", I_, I_)(i)), "byte", is_bytes=True))],
+                       desc="bytes of any length")
+        mk_extra = extra_params(SEVEN, "_mkdirs", 1)
+        if mk_extra:                                           # e.g. _mkdirs(path, what="directory"): the first parameter keeps the role
+            mk_path = loader.module(SEVEN).functions["_mkdirs"].args.args[0].arg
+        else:
+            (mk_path,), mk_extra = real_params(SEVEN, "_mkdirs", ("path",)), []
+        ef_self, ef_base, ef_k, ef_dec = real_params(SEVEN, "SevenZipReader._extract_files_from_folder", ("self", "base_path", "folder_idx", "decompressed"))
+
+        def mk_requires(c):
+            temp = c.st.ghost.get("temp_dir")
+            if temp is None:                                   # the function's own verification: ANY private directory
+                temp = z3.String("c09_private_dir")
+                c.st.ghost["temp_dir"] = temp
+            return mkdir_ok(temp, c.args[mk_path].t)
+
+        out.append(FnContract(
+            target=f"{SEVEN}::_mkdirs", params=[(mk_path, p_str())] + list(mk_extra), requires=mk_requires,
+            raises=[Raises("Bad7zFile"), Raises("Exception", sub=True, when=_fs_site, label="raised by the file-system primitive itself")],
+            note="requires: the path is inside the private directory (or is its parent: nothing to create); the only file-system call is os.makedirs on that very path. "
+                 "VERIFIED; callers see the same contract (call-pre obligation at each call site)"))
+
+        def ef_requires(c):
+            k = ops.int_term(c.args[ef_k])
+            j = z3.Int("j!c09req")
+            temp = c.st.ghost.get("temp_dir")
+            if temp is None:                                   # the function's own verification: base_path IS the private directory
+                c.st.ghost["temp_dir"] = c.args[ef_base].t
+                here = z3.BoolVal(True)
+            else:                                              # a call site: the directory handed over is the caller's private directory
+                here = c.args[ef_base].t == temp
+            return z3.And(here, HASF(k),
+                          z3.ForAll([j], z3.Implies(z3.And(j >= 0, j < NIDX(k)), z3.And(FIDX(k, j) >= 0, FIDX(k, j) < NFILES)), patterns=[FIDX(k, j)]))
+
+        out.append(FnContract(
+            target=f"{SEVEN}::SevenZipReader._extract_files_from_folder",
+            params=[(ef_self, p_obj("SevenZipReader", {"_folder_to_files": p_fmap, "_files": p_files})), (ef_base, p_str()), (ef_k, p_int()), (ef_dec, p_blob)],
+            requires=ef_requires,
+            raises=[Raises("Bad7zFile"), Raises("Exception", sub=True, when=_fs_site, label="raised by the file-system primitive itself")],
+            note="for every member table and every folder output: each os.makedirs / open path is inside base_path (fs-confined VCs at the real call sites, "
+                 "_safe_join and _mkdirs through their VERIFIED contracts); the loop needs no invariant beyond base_path being loop-invariant"))
+        # ---- extractall(self, path, source_file=None): the directory itself, every folder's members (through the contract above), every zero-length file
+        ea = real_params(SEVEN, "SevenZipReader.extractall", ("self", "path", "source_file"))
+        ea_self, ea_path, ea_src = ea
+        NZ, NFO, NPK, NPP = z3.Int("c09_n_zero_length"), z3.Int("c09_n_folders"), z3.Int("c09_n_pack_sizes"), z3.Int("c09_n_pack_positions")
+        ZIDX, PSZ, PPOS = z3.Function("c09_zero_length_index", I_, I_), z3.Function("c09_pack_size", I_, I_), z3.Function("c09_pack_position", I_, I_)
+        zl_attr = next((n.attr for q, f in sorted(loader.module(SEVEN).functions.items()) if q.startswith("SevenZipReader.") and not q.endswith("__init__")
+                        for n in __import__("ast").walk(f) if isinstance(n, __import__("ast").Attribute) and "empty" in n.attr and isinstance(n.ctx, __import__("ast").Load)
+                        and isinstance(n.value, __import__("ast").Name) and n.value.id == "self" and not any(q2 == f"SevenZipReader.{n.attr}" for q2 in loader.module(SEVEN).functions)),
+                       "_empty_file_indices")
+        fields = {"_folder_to_files": p_fmap, "_files": p_files,
+                  "_folders": Maker(lambda ex, st, name: [(NFO >= 0, VSeq(NFO, lambda i: VExt("Folder", z3.Function("c09_folder", I_, ext_sort("Folder"))(i)), "Folder"))], desc="list[Folder]"),
+                  "_pack_sizes": Maker(lambda ex, st, name: [(NPK >= 0, VSeq(NPK, lambda i: VInt(PSZ(i)), "int"))], desc="list[int]"),
+                  "_pack_positions": Maker(lambda ex, st, name: [(NPP >= 0, VSeq(NPP, lambda i: VInt(PPOS(i)), "int"))], desc="list[int]"),
+                  "_header_offset": p_int(),
+                  zl_attr: Maker(lambda ex, st, name: [(NZ >= 0, VSeq(NZ, lambda j: VInt(ZIDX(j)), "int"))], desc="indices of the zero-length files")}
+
+        def ea_requires(c):
+            c.st.ghost["temp_dir"] = c.args[ea_path].t
+            j, t = z3.Int("j!c09ea"), z3.Int("t!c09ea")
+            return z3.And(z3.ForAll([t, j], z3.Implies(z3.And(HASF(t), j >= 0, j < NIDX(t)), z3.And(FIDX(t, j) >= 0, FIDX(t, j) < NFILES)), patterns=[FIDX(t, j)]),
+                          z3.ForAll([j], z3.Implies(z3.And(j >= 0, j < NZ), z3.And(ZIDX(j) >= 0, ZIDX(j) < NFILES)), patterns=[ZIDX(j)]))
+
+        out.append(FnContract(
+            target=f"{SEVEN}::SevenZipReader._decompress_folder", assumed=True,
+            params=[(n, p_unk()) for n in real_params(SEVEN, "SevenZipReader._decompress_folder", ("self", "folder", "pack_pos", "pack_sizes", "source_file"))],
+            result_maker=lambda ex, st, ctx: VSeq(z3.Int(fresh_name("folder_out_len")), lambda i: VInt(z3.Int(fresh_name("b"))), "byte", is_bytes=True),
+            raises=[Raises("Bad7zFile")], exc_any_ok=True,
+            note="works on the in-memory archive object only (policy P1 lists every file-system call site of the module: none is in it); what it returns is C10's"))
+        out.append(FnContract(
+            target=f"{SEVEN}::SevenZipReader.extractall",
+            params=[(ea_self, p_obj("SevenZipReader", fields)), (ea_path, p_str()), (ea_src, p_opt(p_unk()))],
+            requires=ea_requires,
+            raises=[Raises("Bad7zFile"), Raises("ValueError"), Raises("Exception", sub=True, when=_fs_site, label="raised by the file-system primitive itself")],
+            note="os.makedirs(path) is the named directory itself; folders go through the VERIFIED contract of _extract_files_from_folder (call-pre: the key is "
+                 "present, indices in range); every zero-length file is created at _safe_join(path, name), its parent through _mkdirs"))
+    except Exception:  # noqa  a contract that cannot be built is reported by the vacuity guard (missing obligation), never an exception
+        pass
     return out
 
 
@@ -486,17 +818,86 @@ def known_findings(kf, violations, repo, tier):
     return out
 
 
+MODEL_OID = "C09/replay::model-validation/bounded#round-7-os-models-agree-with-the-platform.BOUNDED"
+MODEL_BOUND = "dirname fact: 5 base directories x 40 member-name shapes (the z3 formula itself, evaluated on the platform's os.path); os.makedirs: parent / nested / existing cases in a scratch directory"
+
+
+def model_validation(repo, tier):
+    """The two models this round ADDS (os.path.dirname of a path below the base; what os.makedirs(exist_ok=True) creates) are assumptions about the
+    standard library, not about the code under check.  They are validated on the platform: the very z3 formula `dirname_fact` is checked with ABS /
+    DIRNAME / NORM pinned to what os.path computes, and os.makedirs is run in a scratch directory.  BOUNDED: never counted as proved; a disagreement
+    is a defect of the MODEL (exit 2 territory), reported as `unknown`."""
+    import shutil
+    import tempfile
+    bad, n = [], 0
+    try:
+        names = ["a", "a/b", "a/b/c.txt", "./a", "a/./b", "a//b", "a/../b", "a/b/..", ".", "", "a/", "..a", "a..", "...", "a/...", "\u00e9/x", "a b/c d", "a\\b", "x" * 40 + "/y",
+                 "a/b/c/d/e/f", "-", "~", "~/x", "a/~", "$HOME/x", "a\nb/c", "a/.hidden", ".hidden/a", "a/b/../../c", "a/b/../c/./d", "C:x", "C:/x", "a:b/c", "x/", "x//", "x/./", "./", ".//", "a/./", "a/b/."]
+        isnorm = lambda q: os.path.isabs(q) and os.path.normpath(q) == q and not q.startswith("//")
+        for base in ("/tmp/private_x", "/", "/a", "/tmp/with space/d", "/tmp/priv\u00e9"):
+            for nm in names:
+                pth = os.path.abspath(os.path.join(os.path.abspath(base), nm))
+                d = os.path.dirname(pth)
+                sv = z3.StringVal
+                sol = z3.Solver()
+                sol.set("timeout", 2000)
+                sol.add(ABS(sv(base)) == sv(os.path.abspath(base)), DIRNAME(sv(pth)) == sv(d))
+                for q in {pth, d, os.path.abspath(base)}:
+                    sol.add(NORM(sv(q)) == z3.BoolVal(isnorm(q)))
+                sol.add(z3.Not(dirname_fact(sv(base), sv(pth))))
+                n += 1
+                if sol.check() != z3.unsat:
+                    bad.append(f"dirname fact fails for base={base!r} path={pth!r} dirname={d!r}")
+        root = tempfile.mkdtemp(prefix="c09_model_")
+        try:
+            priv = os.path.join(root, "private")
+            os.mkdir(priv)
+            listing = lambda: sorted(os.path.relpath(os.path.join(dp, x), root) for dp, dn, fn in os.walk(root) for x in dn + fn)
+            before = listing()
+            os.makedirs(os.path.dirname(priv), exist_ok=True)            # the parent of the private directory: nothing is created
+            os.makedirs(os.path.dirname(os.path.abspath(priv)), exist_ok=True)
+            n += 2
+            if listing() != before:
+                bad.append(f"os.makedirs(parent, exist_ok=True) changed the directory tree: {before} -> {listing()}")
+            os.makedirs(os.path.join(priv, "a", "b"), exist_ok=True)   # inside: everything created is inside
+            os.makedirs(priv, exist_ok=True)
+            n += 2
+            if listing() != ["private", "private/a", "private/a/b"]:
+                bad.append(f"os.makedirs(private/a/b) created {listing()}")
+        finally:
+            shutil.rmtree(root, ignore_errors=True)
+    except Exception as e:  # noqa
+        return {"obligations": [], "undecided": [{"obligation": MODEL_OID, "why": f"model validation could not run: {type(e).__name__}: {e}"}]}
+    o = ground_obligation(MODEL_OID, not bad, "; ".join(bad[:5]) or f"{n} instances agree", "contracts/C09.py", kind="bounded", backend="native-replay", definite=False)
+    o["bounded"] = True
+    o["bound"] = MODEL_BOUND
+    return {"obligations": [o]}
+
+
 from contracts import c09_routing  # noqa: E402
 
-EXTRA = [policy, native_collisions, native_collisions_known_temp_name, c09_routing.routing_conformance, c09_routing.routing_lemma]
+from contracts import c09_counts  # noqa: E402
+
+EXTRA = [policy, native_collisions, native_collisions_known_temp_name, c09_routing.routing_conformance, c09_routing.routing_lemma, model_validation,
+         c09_counts.count_obligations]
 TRUSTED = ["a normalised absolute path equal to abspath(base) or prefixed by abspath(base)+sep lies inside base (no symlinks are created by the reader)",
            "os.path.abspath returns a normalised absolute path",
-           "a normalised absolute path that ends in a separator is the file-system root: every normalised absolute path with that prefix lies inside it"]
+           "a normalised absolute path that ends in a separator is the file-system root: every normalised absolute path with that prefix lies inside it",
+           "the private directory exists while the reader writes into it: os.makedirs(p, exist_ok=True) creates only missing directories on the way to p, so for p "
+           "inside the private directory everything it creates is inside, and for p = the parent of the private directory it creates nothing (round 7; validated natively: "
+           "C09/replay::model-validation obligation)"]
 ASSUMED_MODELS = ["os.path.abspath/join/splitdrive/isabs/normpath (uninterpreted)", "os.path.commonprefix([a, b]) (character prefix; == a iff a is a prefix of b)",
                   "os.path.commonpath([a, b]) on normalised absolute paths (== a iff b is a or lies below a)",
-                  "os.path.relpath(t, b) on normalised absolute paths (climbs with `..` iff t is neither b nor below b)", "os.sep / os.pardir / os.curdir (POSIX values)", "open/os.makedirs/os.path.exists (effects with confinement obligation)",
-                  "archive_extractor._process_archive_entry (C01)", "archive_extractor._is_supported_file_cached (C07/C15)"]
+                  "os.path.relpath(t, b) on normalised absolute paths (climbs with `..` iff t is neither b nor below b)", "os.sep / os.pardir / os.curdir (POSIX values)",
+                  "os.path.dirname(p) of a normalised absolute path strictly below abspath(base) (is abspath(base) or lies below it; nothing assumed for abspath(base) itself)",
+                  "open/os.makedirs/os.path.exists (effects with confinement obligation)", "io.BytesIO(data) (an in-memory stream over data; no file)",
+                  "sum(list of ints) (an int; raises nothing)", "file.write (may raise; no other effect than on the already confined open file)"]
+# round 7: archive_extractor._process_archive_entry and archive_extractor._is_supported_file_cached are no longer assumed (verified contracts above);
+# what is still assumed of the library itself is listed by the engine from the `assumed=True` registrations: router.is_supported_file (call-site
+# view of a function verified by the conformance obligation), _get_file_extractor_cached (some callable or an exception), SevenZipReader._decompress_folder
+# (returns bytes or raises Bad7zFile; its content is C10's)
 ASSUMPTIONS = ["PY-STR", "EXC-ANY", "os.path.splitext by axioms A1-A3 and an arbitrary MIME database (routing lemma, as in pack C07)", "what third-party extractors do with member *bytes* is outside this property's contracts",
-               "OS-level races (symlink swaps in the temp dir by another process) are not modelled"]
+               "OS-level races (symlink swaps in the temp dir by another process) are not modelled",
+               "PY-MEMO: functools.lru_cache in front of a deterministic function is transparent (memo soundness is C15's)"]
 
 REPLAY_UNKNOWN = True    # undecided / out-of-subset items are searched natively (replay) before being reported UNDECIDED
